@@ -1,90 +1,332 @@
-/* C01 harness: drives the real Checkable::ProcessCheckResult on real Host/Service objects and prints
- * one line per result: the operation, then what the implementation did.
+/* C01 harness: drives the real Checkable::ProcessCheckResult (directly, or through the production entry
+ * point ApiActions::ProcessCheckResult) on real Host/Service objects — stand-alone, or placed below a
+ * parent (the service's own host, or a Dependency object) that goes down and up, acknowledged, in a
+ * downtime, with notifications/active checks switched off — and prints one line per operation: the
+ * operation, then what the implementation shows afterwards.
  *
- *   C <kind h|s> <max> <volatile> <flapping>
- *   R <state> <execStart> <now> <active> | <accepted> <state> <stype> <attempt> <lastHard> <ev>
+ *   C <kind h|s> <max> <volatile> <flapping> <topology>
+ *        topology 0: stand-alone, unregistered object (as test/icinga-checkresult.cpp builds them)
+ *                 1: service on a parent host (implicit host dependency) / host with a Dependency on a parent host
+ *                 2: explicit Dependency on a parent host that counts soft states too (ignore_soft_states = false,
+ *                    parent max_check_attempts 3); a service additionally has its own (never checked) host
+ *   S <state> <stype> <attempt> <lastHard> <prevHard> <exec> | <obs>     start state as restored from a state file
+ *   R <state> <execStart> <now> <via> | <obs> ; <reachable> <acknowledged> <flapping> <inDowntime>
+ *        via 0: passive result, ProcessCheckResult   1: active result, ProcessCheckResult
+ *            2: passive result through ApiActions::ProcessCheckResult (exit_status; hosts: 0 = Up, 1 = Down)
+ *            3: passive result through the external command PROCESS_HOST_/PROCESS_SERVICE_CHECK_RESULT (registered
+ *               objects only, i.e. topology 1, 2; else as 0); its timestamp is the execution start
+ *            4: active result handed to ProcessCheckResult with a (local) MessageOrigin, as a cluster peer's handler does
+ *   P <state> <now>        the parent gets a result (topology 1, 2)
+ *   A <0|1|2> <now>        acknowledgement cleared / normal / sticky
+ *   D <0|1> <now>          fixed downtime removed / added and triggered (topology 1, 2)
+ *   F <notifications> <activeChecks>      enable_notifications / enable_active_checks
+ *   <obs> = <accepted> <state> <stype> <attempt> <lastHard> <ev> <prevHard> <vaState> <vaType> <vaAttempt>
+ *           <apiState> <apiLastState> <apiLastHard>
  *
  * Modes:  gen --seed S --tier quick|thorough      internal enumeration + seeded random histories
- *         ops FILE                                 replay the C/R lines of FILE (text after '|' ignored)
+ *         ops FILE                                 replay the operation lines of FILE (text after '|' ignored)
  */
 #include "common.hpp"
+#include "base/dictionary.hpp"
+#include "icinga/apiactions.hpp"
+#include "icinga/dependency.hpp"
+#include "icinga/downtime.hpp"
+#include "icinga/externalcommandprocessor.hpp"
+#include "remote/messageorigin.hpp"
 
 using namespace icinga;
 using namespace vh;
 
 static int l_Event = 0; /* 0 none, 1 soft, 2 hard */
 static int l_EventCount = 0;
+static int l_CaseNo = 0;
 
-struct Case {
+struct World {
+	Host::Ptr parent;      /* the host that P drives */
+	Host::Ptr ownHost;     /* topology 2, service: its own host */
 	Checkable::Ptr obj;
-	bool host;
+	Dependency::Ptr dep;
+	Downtime::Ptr dt;
+	bool host = false;
+	int topo = 0;
 };
 
-static Checkable::Ptr MakeObject(bool host, int maxAttempts, bool isVolatile, bool flapping)
+static World l_W;
+
+static void Teardown()
 {
+	if (!l_W.obj)
+		return;
+	if (l_W.dt) {
+		l_W.obj->UnregisterDowntime(l_W.dt);
+		l_W.dt->Unregister();
+		l_W.dt = nullptr;
+	}
+	if (l_W.dep) {
+		l_W.dep->GetChild()->RemoveDependency(l_W.dep);
+		l_W.dep->GetParent()->RemoveReverseDependency(l_W.dep);
+		l_W.dep = nullptr;
+	}
+	l_W.obj->SetActive(false);
+	if (l_W.topo != 0) {
+		l_W.obj->Unregister();
+		if (l_W.ownHost) { l_W.ownHost->SetActive(false); l_W.ownHost->Unregister(); }
+		if (l_W.parent) { l_W.parent->SetActive(false); l_W.parent->Unregister(); }
+	}
+	l_W = World();
+}
+
+static Host::Ptr MakeHost(const std::string& name, int maxAttempts)
+{
+	Host::Ptr h = new Host();
+	h->SetName(name);
+	h->SetActive(true);
+	h->SetMaxCheckAttempts(maxAttempts);
+	h->Register();
+	h->Activate();
+	h->SetAuthority(true);
+	static_pointer_cast<ConfigObject>(h)->OnAllConfigLoaded();
+	return h;
+}
+
+static void Setup(bool host, int maxAttempts, bool isVolatile, bool flapping, int topo)
+{
+	Teardown();
+	l_CaseNo++;
+	l_W.host = host;
+	l_W.topo = topo;
+	std::string sfx = std::to_string(l_CaseNo);
+
 	Checkable::Ptr c;
-	if (host)
-		c = new Host();
-	else
-		c = new Service();
+	if (topo == 0) {
+		if (host)
+			c = new Host();
+		else
+			c = new Service();
+	} else {
+		l_W.parent = MakeHost("c01-parent-" + sfx, topo == 2 ? 3 : 1);
+		if (host) {
+			Host::Ptr h = new Host();
+			h->SetName("c01-host-" + sfx);
+			c = h;
+		} else {
+			Host::Ptr own = l_W.parent;
+			if (topo == 2) {
+				l_W.ownHost = MakeHost("c01-own-" + sfx, 1);
+				own = l_W.ownHost;
+			}
+			Service::Ptr s = new Service();
+			s->SetHostName(own->GetName());
+			s->SetName(own->GetName() + "!svc");
+			s->SetShortName("svc");
+			c = s;
+		}
+	}
 	c->SetActive(true);
 	c->SetMaxCheckAttempts(maxAttempts);
 	c->SetVolatile(isVolatile);
 	c->SetEnableFlapping(flapping);
+	if (topo != 0)
+		c->Register();
 	c->Activate();
 	c->SetAuthority(true);
-	return c;
+	if (topo != 0)
+		static_pointer_cast<ConfigObject>(c)->OnAllConfigLoaded();
+	l_W.obj = c;
+
+	if (topo == 2 || (topo == 1 && host)) {
+		l_W.dep = new Dependency();
+		l_W.dep->SetParent(l_W.parent);
+		l_W.dep->SetChild(c);
+		l_W.dep->SetName("c01-dep-" + sfx + "!" + c->GetName());
+		l_W.dep->SetStateFilter(StateFilterUp);
+		l_W.dep->SetIgnoreSoftStates(topo != 2);
+		l_W.dep->SetRedundancyGroup("");
+		/* the checkable is not Start()ed: do the one thing Checkable::Start does for dependencies, else
+		 * AddDependency only parks the dependency and IsReachable ignores it */
+		c->PushDependencyGroupsToRegistry();
+		c->AddDependency(l_W.dep);
+		l_W.parent->AddReverseDependency(l_W.dep);
+	}
 }
 
-static void DoResult(const Checkable::Ptr& c, int state, long long execStart, long long now, int active)
+static void PrintObs(int accepted)
 {
+	const Checkable::Ptr& c = l_W.obj;
+	CheckResult::Ptr lcr = c->GetLastCheckResult();
+	int prevHard = 99, vaS = 9, vaT = 9;
+	long vaA = 0;
+	if (lcr) {
+		prevHard = (int)lcr->GetPreviousHardState();
+		Dictionary::Ptr va = lcr->GetVarsAfter();
+		if (va) {
+			vaS = (int)(double)va->Get("state");
+			vaT = (int)(double)va->Get("state_type");
+			vaA = (long)(double)va->Get("attempt");
+		}
+	}
+	int apiS, apiLS, apiLH;
+	if (l_W.host) {
+		Host::Ptr h = static_pointer_cast<Host>(c);
+		apiS = (int)h->GetState(); apiLS = (int)h->GetLastState(); apiLH = (int)h->GetLastHardState();
+	} else {
+		Service::Ptr s = static_pointer_cast<Service>(c);
+		apiS = (int)s->GetState(); apiLS = (int)s->GetLastState(); apiLH = (int)s->GetLastHardState();
+	}
+	printf("%d %d %d %ld %d %d %d %d %d %ld %d %d %d", accepted,
+		(int)c->GetStateRaw(), (int)c->GetStateType(), (long)c->GetCheckAttempt(), (int)c->GetLastHardStateRaw(), l_Event,
+		prevHard, vaS, vaT, vaA, apiS, apiLS, apiLH);
+}
+
+static void DoStart(int state, int stype, long attempt, int lastHard, int prevHard, long long exec)
+{
+	const Checkable::Ptr& c = l_W.obj;
+	l_Event = 0;
+	l_EventCount = 0;
+	/* what the state file / a cluster sync restores: the [state] attributes and the last check result */
+	c->SetStateRaw((ServiceState)state);
+	c->SetStateType((StateType)stype);
+	c->SetCheckAttempt(attempt);
+	c->SetLastStateRaw((ServiceState)state);
+	c->SetLastStateType((StateType)stype);
+	c->SetLastHardStateRaw((ServiceState)lastHard);
+	c->SetLastHardStatesRaw((unsigned short)(lastHard * 100 + prevHard));
+	CheckResult::Ptr cr = MakeCr((ServiceState)state, (double)exec, (double)exec, true);
+	cr->SetPreviousHardState((ServiceState)prevHard);
+	cr->SetVarsAfter(new Dictionary({
+		{ "state", state }, { "state_type", stype }, { "attempt", attempt }, { "reachable", true }
+	}));
+	c->SetLastCheckResult(cr);
+	printf("S %d %d %ld %d %d %lld | ", state, stype, attempt, lastHard, prevHard, exec);
+	PrintObs(1);
+	printf("\n");
+}
+
+static void DoResult(int state, long long execStart, long long now, int via)
+{
+	const Checkable::Ptr& c = l_W.obj;
 	SetNow((double)now);
 	l_Event = 0;
 	l_EventCount = 0;
-	CheckResult::Ptr cr = MakeCr((ServiceState)state, (double)execStart, (double)execStart, active != 0);
-	auto res = c->ProcessCheckResult(cr);
-	int accepted = (res == Checkable::ProcessingResult::Ok) ? 1 : 0;
+	if (via == 3 && l_W.topo == 0)
+		via = 0;
+	if ((via == 2 || via == 3) && l_W.host)
+		state = (state == 0 || state == 1) ? 0 : 2; /* the API and the external command know Up and Down only for hosts */
+	int reach = c->IsReachable() ? 1 : 0;
+	int acked = c->IsAcknowledged() ? 1 : 0;
+	int indt = c->IsInDowntime() ? 1 : 0;
+	int accepted;
+	if (via == 2) {
+		CheckResult::Ptr before = c->GetLastCheckResult();
+		Dictionary::Ptr params = new Dictionary({
+			{ "exit_status", l_W.host ? (state == 0 ? 0 : 1) : state },
+			{ "plugin_output", "harness" },
+			{ "execution_start", (double)execStart },
+			{ "execution_end", (double)execStart }
+		});
+		Dictionary::Ptr res = ApiActions::ProcessCheckResult(c, params);
+		accepted = (c->GetLastCheckResult() != before) ? 1 : 0;
+		(void)res;
+	} else if (via == 3) {
+		CheckResult::Ptr before = c->GetLastCheckResult();
+		if (l_W.host) {
+			ExternalCommandProcessor::Execute((double)execStart, "PROCESS_HOST_CHECK_RESULT",
+				{ c->GetName(), state == 0 ? "0" : "1", "harness" });
+		} else {
+			Service::Ptr s = static_pointer_cast<Service>(c);
+			ExternalCommandProcessor::Execute((double)execStart, "PROCESS_SERVICE_CHECK_RESULT",
+				{ s->GetHostName(), "svc", Convert::ToString(state), "harness" });
+		}
+		accepted = (c->GetLastCheckResult() != before) ? 1 : 0;
+	} else {
+		CheckResult::Ptr cr = MakeCr((ServiceState)state, (double)execStart, (double)execStart, via != 0);
+		MessageOrigin::Ptr origin;
+		if (via == 4)
+			origin = new MessageOrigin();
+		auto res = c->ProcessCheckResult(cr, origin);
+		accepted = (res == Checkable::ProcessingResult::Ok) ? 1 : 0;
+	}
 	if (l_EventCount > 1)
 		l_Event = 9; /* more than one OnStateChange for one result: never valid */
-	printf("R %d %lld %lld %d | %d %d %d %ld %d %d\n", state, execStart, now, active, accepted,
-		(int)c->GetStateRaw(), (int)c->GetStateType(), (long)c->GetCheckAttempt(), (int)c->GetLastHardStateRaw(), l_Event);
+	printf("R %d %lld %lld %d | ", state, execStart, now, via);
+	PrintObs(accepted);
+	printf(" ; %d %d %d %d\n", reach, acked, c->IsFlapping() ? 1 : 0, indt);
 }
 
-static void Finish(const Checkable::Ptr& c)
+static void DoParent(int state, long long now)
 {
-	c->SetActive(false);
+	printf("P %d %lld |\n", state, now);
+	if (!l_W.parent)
+		return;
+	SetNow((double)now);
+	l_W.parent->ProcessCheckResult(MakeCr((ServiceState)state, (double)now, (double)now, true));
 }
 
-static void RunSeq(bool host, int mx, bool vol, bool flap, const std::vector<int>& states, Rng *rng, int tsMode)
+static void DoAck(int mode, long long now)
 {
-	printf("C %c %d %d %d\n", host ? 'h' : 's', mx, vol ? 1 : 0, flap ? 1 : 0);
-	Checkable::Ptr c = MakeObject(host, mx, vol, flap);
-	long long t = 1000;
-	long long lastExec = t;
-	for (size_t i = 0; i < states.size(); i++) {
-		long long exec, now;
-		if (tsMode == 0 || !rng) {
-			t += 10; exec = t; now = t;
-		} else {
-			/* timestamps: mostly increasing, sometimes equal, sometimes older (stale), sometimes in the future */
-			int k = (int)rng->below(10);
-			t += (long long)rng->below(20);
-			now = t;
-			if (k < 6) exec = t;
-			else if (k == 6) exec = lastExec;            /* equal */
-			else if (k == 7) exec = lastExec - 1 - (long long)rng->below(5); /* older */
-			else if (k == 8) exec = t + 50 + (long long)rng->below(50);      /* from the future */
-			else exec = t - (long long)rng->below(3);
-			if (exec < 1) exec = 1;
-		}
-		int active = rng ? (int)rng->below(2) : 1;
-		DoResult(c, states[i], exec, now, active);
-		if ((int)c->GetStateRaw() == states[i]) lastExec = exec;
+	const Checkable::Ptr& c = l_W.obj;
+	printf("A %d %lld |\n", mode, now);
+	SetNow((double)now);
+	if (mode == 0) {
+		c->ClearAcknowledgement("harness");
+	} else if (!c->IsStateOK(c->GetStateRaw()) && !c->IsAcknowledged()) {
+		/* as the API action does: only problems that are not acknowledged yet */
+		c->AcknowledgeProblem("harness", "ack", mode == 2 ? AcknowledgementSticky : AcknowledgementNormal, false, false,
+			(double)now, 0);
 	}
-	Finish(c);
 }
 
-static void Enumerate(int len, int maxMax)
+static void DoDowntime(int add, long long now)
+{
+	const Checkable::Ptr& c = l_W.obj;
+	printf("D %d %lld |\n", add, now);
+	if (l_W.topo == 0)
+		return;
+	SetNow((double)now);
+	if (add) {
+		if (l_W.dt)
+			return;
+		Downtime::Ptr d = new Downtime();
+		if (l_W.host) {
+			d->SetHostName(c->GetName());
+		} else {
+			Service::Ptr s = static_pointer_cast<Service>(c);
+			d->SetHostName(s->GetHostName());
+			d->SetServiceName("svc");
+		}
+		d->SetName(c->GetName() + "!dt");
+		d->SetFixed(true);
+		d->SetStartTime((double)now - 3600);
+		d->SetEndTime((double)now + 100000000.0);
+		c->RegisterDowntime(d);
+		d->Register();
+		d->OnAllConfigLoaded();
+		d->TriggerDowntime((double)now);
+		l_W.dt = d;
+	} else if (l_W.dt) {
+		c->UnregisterDowntime(l_W.dt);
+		l_W.dt->Unregister();
+		l_W.dt = nullptr;
+	}
+}
+
+static void DoFlags(int notif, int active)
+{
+	printf("F %d %d |\n", notif, active);
+	l_W.obj->SetEnableNotifications(notif != 0);
+	l_W.obj->SetEnableActiveChecks(active != 0);
+}
+
+static void Header(bool host, int mx, bool vol, bool flap, int topo)
+{
+	printf("C %c %d %d %d %d\n", host ? 'h' : 's', mx, vol ? 1 : 0, flap ? 1 : 0, topo);
+	Setup(host, mx, vol, flap, topo);
+}
+
+/* ---- generators ---- */
+
+/* every result sequence of the given length from the pending state, stand-alone object */
+static void EnumeratePending(int len, int maxMax)
 {
 	std::vector<int> states(len);
 	long total = 1;
@@ -95,8 +337,120 @@ static void Enumerate(int len, int maxMax)
 	for (int flap = 0; flap < 2; flap++)
 	for (long code = 0; code < total; code++) {
 		long c = code;
-		for (int i = 0; i < len; i++) { states[i] = (int)(c % 4); c /= 4; }
-		RunSeq(host, mx, vol, flap, states, nullptr, 0);
+		Header(host, mx, vol, flap, 0);
+		long long t = 1000;
+		for (int i = 0; i < len; i++) { t += 10; DoResult((int)(c % 4), t, t, 1); c /= 4; }
+	}
+}
+
+/* every result sequence of the given length from every start state (state, type, attempt 1..3, last hard
+ * state, previous hard state) — what a state file written by this or an older version, or a cluster sync, may hold */
+static void EnumerateStarts(int len, int maxMax)
+{
+	long total = 1;
+	for (int i = 0; i < len; i++) total *= 4;
+	static const int prevs[2] = { 99, 1 };
+	for (int host = 0; host < 2; host++)
+	for (int mx = 1; mx <= maxMax; mx++)
+	for (int vol = 0; vol < 2; vol++)
+	for (int st = 0; st < 4; st++)
+	for (int ty = 0; ty < 2; ty++)
+	for (int at = 1; at <= 3; at++)
+	for (int lh = 0; lh < 4; lh++)
+	for (int pi = 0; pi < 2; pi++)
+	for (long code = 0; code < total; code++) {
+		/* thin out: the last/previous hard state matter to the bookkeeping clauses only */
+		if ((lh == 1 || lh == 3) && pi == 1)
+			continue;
+		long c = code;
+		Header(host, mx, vol, false, 0);
+		long long t = 1000;
+		DoStart(st, ty, at, lh, prevs[pi], t);
+		for (int i = 0; i < len; i++) { t += 10; DoResult((int)(c % 4), t, t, i % 2); c /= 4; }
+	}
+}
+
+/* every result sequence of the given length on an object whose parent goes down before result number `downAt`
+ * (and, in half of the cases, up again two results later) */
+static void EnumerateUnreachable(int len, int maxMax)
+{
+	long total = 1;
+	for (int i = 0; i < len; i++) total *= 4;
+	for (int host = 0; host < 2; host++)
+	for (int topo = 1; topo <= 2; topo++)
+	for (int mx = 1; mx <= maxMax; mx++)
+	for (int vol = 0; vol < 2; vol++)
+	for (int downAt = 0; downAt < 2; downAt++)
+	for (int upAgain = 0; upAgain < 2; upAgain++)
+	for (long code = 0; code < total; code++) {
+		long c = code;
+		Header(host, mx, vol, false, topo);
+		long long t = 1000;
+		for (int i = 0; i < len; i++) {
+			t += 10;
+			if (i == downAt) {
+				/* topology 2 counts soft states, one result is enough there too */
+				DoParent(2, t - 1);
+			}
+			if (upAgain && i == downAt + 2)
+				DoParent(0, t - 1);
+			DoResult((int)(c % 4), t, t, 1);
+			c /= 4;
+		}
+	}
+}
+
+static void RandomCase(Rng& rng, int maxLen)
+{
+	bool host = rng.coin();
+	int mx = 1 + (int)rng.below(12);
+	bool vol = rng.below(4) == 0;
+	bool flap = rng.coin();
+	int topo = rng.below(3) == 0 ? 0 : 1 + (int)rng.below(2);
+	int len = 1 + (int)rng.below(maxLen);
+	int tsMode = (int)rng.below(2);
+	int envRate = (int)rng.below(3) == 0 ? 0 : 2 + (int)rng.below(8); /* one environment op every envRate results */
+	bool useApi = rng.below(3) == 0;
+	/* bias: long runs of non-OK so that large max values are reached */
+	int pOk = 1 + (int)rng.below(6);
+	Header(host, mx, vol, flap, topo);
+	long long t = 1000;
+	long long lastExec = t;
+	if (rng.below(4) == 0) {
+		int st = (int)rng.below(4);
+		int lh = vol && rng.below(4) != 0 ? st : (int)rng.below(4);
+		DoStart(st, (int)rng.below(2), 1 + (long)rng.below(mx + 1), lh, rng.coin() ? 99 : (int)rng.below(4), t);
+	}
+	for (int j = 0; j < len; j++) {
+		if (envRate && rng.below(envRate) == 0) {
+			t += 1;
+			switch (rng.below(4)) {
+				case 0: DoParent(rng.below(3) == 0 ? 0 : 2 + (int)rng.below(2), t); break;
+				case 1: DoAck((int)rng.below(3), t); break;
+				case 2: DoDowntime((int)rng.below(2), t); break;
+				default: DoFlags((int)rng.below(2), (int)rng.below(2)); break;
+			}
+		}
+		int state = (rng.below(10) < (uint64_t)pOk) ? (int)rng.below(2) : 2 + (int)rng.below(2);
+		long long exec, now;
+		if (tsMode == 0) {
+			t += 10; exec = t; now = t;
+		} else {
+			/* timestamps: mostly increasing, sometimes equal, sometimes older (stale), sometimes in the future */
+			int k = (int)rng.below(10);
+			t += (long long)rng.below(20);
+			now = t;
+			if (k < 6) exec = t;
+			else if (k == 6) exec = lastExec;            /* equal */
+			else if (k == 7) exec = lastExec - 1 - (long long)rng.below(5); /* older */
+			else if (k == 8) exec = t + 50 + (long long)rng.below(50);      /* from the future */
+			else exec = t - (long long)rng.below(3);
+			if (exec < 1) exec = 1;
+		}
+		int via = (useApi && rng.below(3) == 0) ? 2 + (int)rng.below(3) : (int)rng.below(2);
+		CheckResult::Ptr before = l_W.obj->GetLastCheckResult();
+		DoResult(state, exec, now, via);
+		if (l_W.obj->GetLastCheckResult() != before) lastExec = exec;
 	}
 }
 
@@ -105,7 +459,9 @@ int main(int argc, char **argv)
 	if (argc < 2) { fprintf(stderr, "usage: h_c01 gen|ops ...\n"); return 2; }
 	InitIcinga();
 
-	Checkable::OnStateChange.connect([](const Checkable::Ptr&, const CheckResult::Ptr&, StateType type, const MessageOrigin::Ptr&) {
+	Checkable::OnStateChange.connect([](const Checkable::Ptr& obj, const CheckResult::Ptr&, StateType type, const MessageOrigin::Ptr&) {
+		if (obj != l_W.obj)
+			return; /* the parent's own state changes */
 		l_Event = (type == StateTypeHard) ? 2 : 1;
 		l_EventCount++;
 	});
@@ -115,45 +471,60 @@ int main(int argc, char **argv)
 		uint64_t seed = strtoull(argOr(argc, argv, "--seed", "1"), nullptr, 10);
 		std::string tier = argOr(argc, argv, "--tier", "quick");
 		bool thorough = tier == "thorough";
-		/* exhaustive part: every result sequence of the given length from the pending state */
-		Enumerate(thorough ? 7 : 5, 4);
-		/* random part: long histories, larger max_check_attempts, arbitrary timestamps */
+		EnumeratePending(thorough ? 7 : 5, 4);
+		EnumerateStarts(thorough ? 4 : 3, 3);
+		EnumerateUnreachable(thorough ? 5 : 4, 3);
+		/* random part: long histories, larger max_check_attempts, arbitrary timestamps, environment changes */
 		Rng rng(seed);
 		int n = thorough ? 20000 : 2000;
 		int maxLen = thorough ? 1000 : 200;
-		for (int i = 0; i < n; i++) {
-			bool host = rng.coin();
-			int mx = 1 + (int)rng.below(12);
-			bool vol = rng.below(4) == 0;
-			bool flap = rng.coin();
-			int len = 1 + (int)rng.below(maxLen);
-			/* bias: long runs of non-OK so that large max values are reached */
-			int pOk = 1 + (int)rng.below(6);
-			std::vector<int> states(len);
-			for (int j = 0; j < len; j++)
-				states[j] = (rng.below(10) < (uint64_t)pOk) ? (int)rng.below(2) : 2 + (int)rng.below(2);
-			RunSeq(host, mx, vol, flap, states, &rng, (int)rng.below(2));
-		}
+		for (int i = 0; i < n; i++)
+			RandomCase(rng, maxLen);
+		Teardown();
 	} else if (mode == "ops") {
 		if (argc < 3) return 2;
 		FILE *f = fopen(argv[2], "r");
 		if (!f) { perror("open"); return 2; }
 		char line[512];
-		Checkable::Ptr c;
 		while (fgets(line, sizeof line, f)) {
 			if (line[0] == 'C') {
-				char k; int mx, vol, flap;
-				if (sscanf(line, "C %c %d %d %d", &k, &mx, &vol, &flap) != 4) { fprintf(stderr, "bad C line\n"); return 2; }
-				if (c) Finish(c);
-				printf("C %c %d %d %d\n", k, mx, vol, flap);
-				c = MakeObject(k == 'h', mx, vol != 0, flap != 0);
-			} else if (line[0] == 'R') {
-				int st, active; long long exec, now;
-				if (sscanf(line, "R %d %lld %lld %d", &st, &exec, &now, &active) != 4 || !c) { fprintf(stderr, "bad R line\n"); return 2; }
-				DoResult(c, st, exec, now, active);
+				char k; int mx, vol, flap, topo = 0;
+				if (sscanf(line, "C %c %d %d %d %d", &k, &mx, &vol, &flap, &topo) < 4) { fprintf(stderr, "bad C line\n"); return 2; }
+				Header(k == 'h', mx, vol != 0, flap != 0, topo);
+				continue;
+			}
+			if (!l_W.obj) {
+				if (line[0] != '\n' && line[0] != '#') { fprintf(stderr, "operation before the C line\n"); return 2; }
+				continue;
+			}
+			if (line[0] == 'R') {
+				int st, via; long long exec, now;
+				if (sscanf(line, "R %d %lld %lld %d", &st, &exec, &now, &via) != 4) { fprintf(stderr, "bad R line\n"); return 2; }
+				DoResult(st, exec, now, via);
+			} else if (line[0] == 'S') {
+				int st, ty, lh, ph; long at; long long exec;
+				if (sscanf(line, "S %d %d %ld %d %d %lld", &st, &ty, &at, &lh, &ph, &exec) != 6) { fprintf(stderr, "bad S line\n"); return 2; }
+				DoStart(st, ty, at, lh, ph, exec);
+			} else if (line[0] == 'P') {
+				int st; long long now;
+				if (sscanf(line, "P %d %lld", &st, &now) != 2) { fprintf(stderr, "bad P line\n"); return 2; }
+				DoParent(st, now);
+			} else if (line[0] == 'A') {
+				int m; long long now;
+				if (sscanf(line, "A %d %lld", &m, &now) != 2) { fprintf(stderr, "bad A line\n"); return 2; }
+				DoAck(m, now);
+			} else if (line[0] == 'D') {
+				int m; long long now;
+				if (sscanf(line, "D %d %lld", &m, &now) != 2) { fprintf(stderr, "bad D line\n"); return 2; }
+				DoDowntime(m, now);
+			} else if (line[0] == 'F') {
+				int a, b;
+				if (sscanf(line, "F %d %d", &a, &b) != 2) { fprintf(stderr, "bad F line\n"); return 2; }
+				DoFlags(a, b);
 			}
 		}
 		fclose(f);
+		Teardown();
 	} else {
 		return 2;
 	}
